@@ -50,8 +50,9 @@ def oracle_pass(chk, scripts, traces, props, pristine=False):
                 tainted = False
             if tainted:
                 fs = [dict(f, sig='after-failed-revert') if f['clause'] in TOLD_CLAUSES else f for f in fs]
-            # K2 survives only where grants are REINSTATED (configuration update, restart): before the first such
-            # request of a history a starved descendant pool can only come from an allocation, which now refuses it
+            # K10 (a zero-request container placed in a pool whose sharable CPUs were sliced off above) is known only where
+            # grants are reinstated or re-allocated with a pool hint (configuration update, restart): before the first such
+            # request of a history the pool comes from the score, which ranks a pool without sharable capacity last
             # K3 survives only where a re-allocation fails at Synchronize or in a configuration update: a container that
             # lost its grant in an UpdateContainer request (the refused update now restores it) is reported as such
             nowg = {g['id'] for g in ((rec.get('ta') or {}).get('grants') or [])}
